@@ -4,7 +4,7 @@
 //!   programs: threads `/`, operations `,`:
 //!     p+<r>.<id> / p-<r>.<id>   persistent insert / delete of tuple (id) in relation r<r>   (execute_program, no session)
 //!     s<k>+<r>.<id> / s<k>-<r>.<id>   ephemeral insert / retract in session k
-//!     s<k>R    add the session rule  cnt(count<X>) <- r0(X)  to session k
+//!     s<k>R    add the session rule  cnt(count<X>) <- r0(X)  to session k       s<k>C  clear the session
 //!     s<k>q<r> session query ?r<r>(X)          s<k>c  session query ?cnt(N)
 //!   output: `res=<t0>/<t1>… fin=<persistent relations> | <per session: facts ; #rules>`
 //!     res entry = ok | n<k> (count returned by insert/retract) | r<sorted ids> (query rows) | err
@@ -96,6 +96,7 @@ fn run_op(h: &Handler, sids: &[inputlayer::session::SessionId], rt: &tokio::runt
         let y = &x[1..];
         if let Some(z) = y.strip_prefix('+') { if let Some((r, id)) = parse_rt(z) { return match h.session_insert_ephemeral(sid, &format!("r{r}"), vec![tup(id)]) { Ok(n) => format!("n{n}"), Err(_) => "err".into() }; } }
         if let Some(z) = y.strip_prefix('-') { if let Some((r, id)) = parse_rt(z) { return match h.session_retract_ephemeral(sid, &format!("r{r}"), vec![tup(id)]) { Ok(n) => format!("n{n}"), Err(_) => "err".into() }; } }
+        if y == "C" { return match h.session_manager().clear_session(sid) { Ok(()) => "ok".into(), Err(_) => "err".into() }; }
         if y == "R" { return match inputlayer::parser::parse_rule(RULE) { Ok(rule) => match h.session_add_rule(sid, rule, RULE.to_string()) { Ok(()) => "ok".into(), Err(_) => "err".into() }, Err(_) => "err".into() }; }
         if y == "c" { return rows(&rt.block_on(h.query_program_with_session(sid, "?cnt(N)".into()))); }
         if let Some(r) = y.strip_prefix('q') { return rows(&rt.block_on(h.query_program_with_session(sid, format!("?r{r}(X)")))); }
@@ -161,6 +162,44 @@ pub fn gen(ctx: &mut Ctx) -> Vec<String> {
         }
         ctx.count("sequential");
         out.push(req(1, &[prog], &[]));
+    }
+    // (4) chosen shape: the fact list of ONE session and relation under insert t / retract t / insert t again /
+    //     retract all / clear, with >= 2 live tuples at the time of a partial retract; every insert/retract count is
+    //     compared with the model and a scan (and count) query follows every step
+    let with_queries = |ops: &[String]| -> Vec<String> { let mut p = vec![]; for o in ops { p.push(o.clone()); p.push("s0q0".to_string()); } p };
+    let directed: Vec<Vec<&str>> = vec![
+        vec!["s0+0.1", "s0+0.2", "s0-0.1", "s0+0.1"],                                   // partial retract, re-insert the retracted one
+        vec!["s0+0.1", "s0+0.2", "s0+0.3", "s0-0.2", "s0+0.2", "s0-0.1", "s0-0.3", "s0+0.3", "s0+0.1"],
+        vec!["s0+0.1", "s0+0.2", "s0-0.1", "s0-0.2", "s0+0.1", "s0+0.2"],               // retract all, re-insert
+        vec!["s0+0.1", "s0+0.2", "s0-0.2", "s0C", "s0+0.2", "s0+0.1"],                   // partial retract, clear, re-insert
+        vec!["s0+0.1", "s0+0.1", "s0+0.2", "s0-0.1", "s0-0.1", "s0+0.1", "s0+0.1"],     // duplicate insert / double retract around it
+        vec!["s0+0.1", "s0+1.1", "s0+0.2", "s0-0.1", "s0+0.1", "s0-1.1", "s0+1.1"],     // two relations
+        vec!["p+0.1", "s0+0.1", "s0+0.2", "s0-0.1", "s0+0.1", "s0R", "s0c"],             // with a persistent twin and the count rule
+    ];
+    for d in &directed { let ops: Vec<String> = d.iter().map(|x| x.to_string()).collect(); out.push(req(1, &[with_queries(&ops)], &[])); ctx.count("fact_list_directed"); }
+    for _ in 0..ctx.budget(150, 3000) {
+        // random walk over a 3-tuple domain of one relation (plus occasionally a second relation), biased to keep >= 2 live
+        let mut live: Vec<(usize, usize)> = vec![]; let mut ops: Vec<String> = vec![];
+        for _ in 0..(6 + ctx.below(9)) {
+            let r = if ctx.chance(1, 5) { 1 } else { 0 }; let x = 1 + ctx.below(3);
+            let c = ctx.below(10);
+            if c < 5 || live.len() < 2 { ops.push(format!("s0+{r}.{x}")); if !live.contains(&(r, x)) { live.push((r, x)); } }
+            else if c < 9 { let (r, x) = if ctx.chance(4, 5) { *ctx.pick(&live) } else { (r, x) }; ops.push(format!("s0-{r}.{x}")); live.retain(|e| *e != (r, x)); }
+            else { ops.push("s0C".to_string()); live.clear(); }
+        }
+        let mut prog = with_queries(&ops);
+        if ctx.chance(1, 3) { prog.push("s0R".into()); prog.push("s0c".into()); }
+        // half of them next to a second session and a persistent writer, randomly interleaved
+        if ctx.chance(1, 2) { out.push(req(1, &[prog], &[])); }
+        else {
+            let progs = vec![vec!["p+0.1".to_string(), "p+0.3".to_string()], prog, vec!["s1+0.2".to_string(), "s1q0".to_string(), "s1-0.2".to_string(), "s1+0.2".to_string(), "s1q0".to_string()]];
+            let counts: Vec<usize> = progs.iter().map(|p| p.iter().map(|o| steps(o)).sum()).collect();
+            let mut left = counts.clone(); let mut s = vec![];
+            while left.iter().any(|&c| c > 0) { let lv: Vec<usize> = (0..left.len()).filter(|&t| left[t] > 0).collect(); let t = *ctx.pick(&lv); left[t] -= 1; s.push(t); }
+            // session ids: thread 1 drives session 0, thread 2 session 1
+            out.push(req(2, &progs, &s));
+        }
+        ctx.count("fact_list_random");
     }
     out.push("c10.run S=0 T=p+0.1 | 0".into());
     out.push("c10.run S=1 T=-/s0c | 1 ; 0 ; 1".into());
